@@ -116,6 +116,43 @@ def check(ctx, rule: str = "name-resolution") -> None:
     what = "Table.__getitem__(str)"
     if not branch:
         probs2.append((f"{what}: the string branch neither returns nor raises", f.node))
+    elif not any(e.kind == "return" and e.loops for e in branch) and any(e.kind == "return" and e.term[0] == "first" for e in branch):
+        # search form: the branch returns  first@L1(col | else first@L2(... | else None))  - the result of a search helper
+        # evaluated in line - and raises when that is None
+        from ..symx import NONE as SNONE
+        rets_ = [e for e in branch if e.kind == "return"]
+        C = rets_[0].term
+        if any(e.term != C for e in rets_):
+            probs2.append((f"{what}: the string branch returns different searches", rets_[1].node))
+        L1, V, rest = C[1], C[2], C[3]
+        lp = gi.loops[L1]
+        src = lp.domain if (lp.domain is not None and lp.domain[0] != "tuple") else lp.iter
+        el = ("elem", cols, lp.id)
+        before = [c for c in flatten_conds(lp.conds) if c != (lit, True)]
+        found = [flatten_conds(c) for c in lp.found]
+        if src != cols:
+            probs2.append((f"{what}: the first scan ranges over `{show(src, gi)[:50]}`, not over all columns in order", rets_[0].node))
+        elif found not in ([[(("cmp", "Eq", ("attr", el, "_name"), KEY), True)]], [[(("cmp", "Eq", KEY, ("attr", el, "_name")), True)]]):
+            probs2.append((f"{what}: the first scan does more than the exact test `col._name == key` (matches under "
+                           f"`{'` / `'.join(show_conds(c, gi)[:60] for c in found)}`: a sanitised look-alike placed earlier could win over the "
+                           f"exactly named column)", rets_[0].node))
+        elif V != el:
+            probs2.append((f"{what}: the exact match does not yield the matched column itself", rets_[0].node))
+        elif before:
+            probs2.append((f"{what}: the exact scan runs only under `{show_conds(before, gi)[:60]}`", rets_[0].node))
+        # the search result is returned exactly when it is not None, and a missing name raises
+        isnone = ("cmp", "Is", C, SNONE)
+        tail = C
+        while tail[0] == "first":
+            tail = tail[3]
+        for e in rets_:
+            if tail == SNONE and flatten_conds(e.conds) != [(lit, True), (isnone, False)]:
+                probs2.append((f"{what}: the search result is returned under `{show_conds(e.conds, gi)[:60]}`", e.node))
+        raises = [e for e in branch if e.kind == "raise"]
+        okl = any(not e.loops and e.term[0] == "call" and e.term[1][0] == "name" and e.term[1][1] in ("_missing_col_error", "SerifKeyError")
+                  and flatten_conds(e.conds) == [(lit, True), (isnone, True)] for e in raises)
+        if tail != SNONE or not okl:
+            probs2.append((f"{what}: the branch does not end by raising the missing-column error", (raises or rets_)[-1].node))
     else:
         first = branch[0]
         ok_first = False
